@@ -188,6 +188,83 @@ def oracle_runner(ops):
     return f'{".".join(items) or "-"}:{1 if flag else 0}:{cls}', err_free, flag
 
 
+def build_versioned_checker(versions, rng):
+    """a toy checker whose check methods depend on the state `self.v` of the checked object: `check_i` does what version v says"""
+    import sarpy.consistency.consistency as con
+    n = len(versions[0])
+    src = ['class Toy(con.ConsistencyChecker):', '    v = 0']
+    for v, checks in enumerate(versions):
+        for i, ops in enumerate(checks):
+            body = ops_to_source(f'_v{v}_check_{i:03d}', ops, rng)
+            src += body
+    for i in range(n):
+        src += [f'    def check_{i:03d}(self):', f'        """check_{i:03d}"""', f'        return getattr(self, "_v%d_check_{i:03d}" % self.v)()']
+    ns = {'con': con}
+    exec(compile('\n'.join(src) + '\n', '<c18 toy history checker>', 'exec'), ns)
+    return ns['Toy'], '\n'.join(src)
+
+
+def canon_store(allr):
+    return {k: ('.'.join(SEV[d['severity']] + ('1' if d['passed'] else '0') for d in r['details']) or '-') + ':' + ('1' if r['passed'] else '0') for k, r in allr.items()}
+
+
+def rand_history(rng, n, nv):
+    evs = []
+    for _ in range(rng.randint(2, 7)):
+        r = rng.random()
+        if r < 0.35:
+            evs.append('m%d' % rng.randrange(nv))
+            continue
+        k = rng.random()
+        if k < 0.4:
+            ev = 'c*'
+        elif k < 0.7:
+            ev = 'ce:' + '.'.join(f'check_{i:03d}' for i in rng.sample(range(n + (1 if rng.random() < 0.1 else 0)), rng.randint(1, min(3, n))))
+        else:
+            ev = 'cp:' + '.'.join(rng.sample(['check_', 'check_0', 'check_00', 'check_000', 'check_001', 'check_002', 'check_01'], rng.randint(1, 2)))
+        if rng.random() < 0.3:
+            ev += '~' + '.'.join(rng.sample(['check_000', 'check_001', 'check_00', 'check_003'], rng.randint(1, 2)))
+        evs.append(ev)
+    if not any(e.startswith('c') for e in evs):
+        evs.append('c*')
+    return evs
+
+
+def call_check(obj, ev):
+    """one `c…` event on a checker object -> 'refused' or None"""
+    body, _, ign = ev[1:].partition('~')
+    kw = {'ignore_patterns': ign.split('.')} if ign else {}
+    try:
+        if body == '*':
+            obj.check(**kw)
+        elif body.startswith('e:'):
+            obj.check(body[2:].split('.'), **kw)
+        else:
+            obj.check(body[2:].split('.'), allow_prefix=True, **kw)
+    except ValueError:
+        return 'refused'
+    return None
+
+
+def run_toy_history(versions, events, rng):
+    """the real runner through a history; after every check() the store, and the store of a NEW checker on the same state with the
+    same call (the direct oracle: a call must not depend on earlier ones).  -> (stores, fresh stores, source)"""
+    Toy, src = build_versioned_checker(versions, rng)
+    toy = Toy()
+    out, fresh_out = [], []
+    for ev in events:
+        if ev[0] == 'm':
+            toy.v = int(ev[1:])
+            continue
+        refused = call_check(toy, ev)
+        fresh = Toy()
+        fresh.v = toy.v
+        fr = call_check(fresh, ev)
+        out.append('refused' if refused else canon_store(toy.all()))
+        fresh_out.append('refused' if fr else canon_store(fresh.all()))
+    return out, fresh_out, src
+
+
 def spec_of(checks):
     return ';'.join(','.join(ops) or '-' for ops in checks)
 
@@ -260,7 +337,7 @@ def mono_refgeom(arp, varp, srp):
     }
 
 
-def consistent_cphd(rng, meta):
+def consistent_cphd(rng, meta, distinct=False):
     """fills `meta` (from cphdgen.build_meta, minimal 1.1.0 template) and returns the PVP arrays of a physically
     self-consistent monostatic spotlight collection: straight flight, fixed SRP, fixed FX / TOA bands"""
     from sarpy.io.complex.sicd_elements.blocks import Poly2DType
@@ -289,14 +366,19 @@ def consistent_cphd(rng, meta):
     span = rng.uniform(0.3, 2.5)
     chans = meta.Data.Channels
     same_band = rng.random() < 0.6 or len(chans) == 1
+    if distinct:        # every checked per-channel parameter differs between the channels (FX band, bandwidth, TOA swath)
+        same_band = False
     fc0, bw0 = rng.uniform(1e9, 1.6e10), rng.uniform(2e7, 4e8)
-    toa = rng.uniform(4e-7, 4e-6)
+    toa0 = rng.uniform(4e-7, 4e-6)
+    toas = []
     dt = meta.PVP.get_vector_dtype()
     pvps = {}
     for k, ch in enumerate(chans):
         nv = ch.NumVectors
         fc = fc0 if same_band else fc0 * (1 + 0.01 * k)
         bw = bw0 if same_band else bw0 * (1 + 0.1 * k)
+        toa = toa0 * (1 + 0.25 * k) if distinct else toa0
+        toas.append(toa)
         arr = numpy.zeros((nv,), dtype=dt)
         tx = t0 + span * numpy.arange(nv) / max(nv - 1, 1)
         mid = t0 + span / 2
@@ -324,7 +406,7 @@ def consistent_cphd(rng, meta):
         p.FXFixed = p.TOAFixed = p.SRPFixed = True
         p.RefVectorIndex = rng.randrange(nv)
     meta.Channel.FXFixedCPHD = same_band
-    meta.Channel.TOAFixedCPHD = True
+    meta.Channel.TOAFixedCPHD = len(set(toas)) == 1
     meta.Channel.SRPFixedCPHD = True
     ref = rng.randrange(len(chans))
     meta.Channel.RefChId = chans[ref].Identifier
@@ -334,7 +416,7 @@ def consistent_cphd(rng, meta):
     g.Timeline.TxTime2 = float(max(v['TxTime'].max() for v in pvps.values()))
     g.FxBand.FxMin = float(min(v['FX1'].min() for v in pvps.values()))
     g.FxBand.FxMax = float(max(v['FX2'].max() for v in pvps.values()))
-    g.TOASwath.TOAMin, g.TOASwath.TOAMax = -toa, toa
+    g.TOASwath.TOAMin, g.TOASwath.TOAMax = -max(toas), max(toas)
     sc.ReferenceSurface.Planar.uIAX = iax
     sc.ReferenceSurface.Planar.uIAY = iay
     sc.ImageArea.X1Y1 = [-half, -half]
@@ -372,14 +454,19 @@ def consistent_cphd(rng, meta):
     return pvps
 
 
-def make_cphd(seed, tmpdir, consistent=True, text_len=None, support=None, vectors=None):
+def make_cphd(seed, tmpdir, consistent=True, text_len=None, support=None, vectors=None, permute=False):
     """one CPHD product, fully determined by its arguments.  `text_len`: length of CollectionID/CollectorName (free text: moves
     the end of the XML block byte by byte); `support`: list of (rows, cols) replacing the drawn support arrays; `vectors`:
-    NumVectors of every channel (8 makes the PVP block a multiple of 64 bytes: no pad in front of the signal block)"""
+    NumVectors of every channel (8 makes the PVP block a multiple of 64 bytes: no pad in front of the signal block);
+    `permute`: 2-3 channels that differ in every checked parameter, with the order of the /Data/Channel entries and of the
+    /Channel/Parameters nodes permuted independently of each other and of the order of the arrays in the file (the branches refer
+    to one another by Identifier)"""
     import c09
     rng = random.Random(seed)
     fmt = rng.choice(['CI2', 'CI4', 'CF8', 'CF8'])
     nch = rng.choice([1, 2, 3])
+    if permute:
+        nch = max(nch, 2)
     sizes = [(rng.randint(2, 9), rng.randint(1, 6)) for _ in range(nch)]
     amp = rng.random() < 0.5
     sup = [(rng.randint(1, 4), rng.randint(1, 5)) for _ in range(rng.choice([0, 0, 1, 2]))]
@@ -388,20 +475,30 @@ def make_cphd(seed, tmpdir, consistent=True, text_len=None, support=None, vector
     if vectors is not None:
         sizes = [(vectors, ns) for _, ns in sizes]
     meta = cphdgen.build_meta(fmt, sizes, amp, sup, None, MINIMAL)
-    pvp = consistent_cphd(rng, meta) if consistent else cphdgen.make_pvp(meta, rng)
+    pvp = consistent_cphd(rng, meta, distinct=permute) if consistent else cphdgen.make_pvp(meta, rng)
+    orders = None
+    if permute:
+        prng = random.Random(seed ^ 0x5eed)
+        while True:
+            pd, pp = prng.sample(range(nch), nch), prng.sample(range(nch), nch)
+            if pd != pp:
+                break
+        meta.Data.Channels = [meta.Data.Channels[i] for i in pd]
+        meta.Channel.Parameters = [meta.Channel.Parameters[i] for i in pp]
+        orders = {'data': [c.Identifier for c in meta.Data.Channels], 'parameters': [p.Identifier for p in meta.Channel.Parameters]}
     if text_len is not None:
         meta.CollectionID.CollectorName = ('Collector' * (text_len // 9 + 1))[:text_len]
     raw, support_arrays = cphdgen.make_raw(meta, rng), cphdgen.make_support(meta, rng)
     plan = {'mode': rng.choice(['file', 'pieces']), 'formatted': False, 'chunks': rng.random() < 0.5, 'order': rng.sample(['pvp', 'support', 'signal'], 3)}
     buf = c09.write_case(rng, meta, pvp, raw, support_arrays, 'path', tmpdir, plan)
     case = {'kind': 'cphd', 'seed': seed, 'consistent': consistent, 'fmt': fmt, 'sizes': sizes, 'amp_sf': amp, 'support': sup, 'plan': plan['mode'],
-            'text_len': text_len, 'support_override': support, 'vectors': vectors}
-    return {'buf': buf, 'meta': meta, 'case': case, 'cls': ('cphd', fmt, nch, amp, min(len(sup), 2), consistent)}
+            'text_len': text_len, 'support_override': support, 'vectors': vectors, 'permute': permute, 'orders': orders}
+    return {'buf': buf, 'meta': meta, 'case': case, 'cls': ('cphd', fmt, nch, amp, min(len(sup), 2), consistent, permute)}
 
 
 def remake_cphd(pc, tmpdir):
     """a product from the `case` dict of a replay file"""
-    return make_cphd(pc['seed'], tmpdir, pc.get('consistent', True), pc.get('text_len'), pc.get('support_override'), pc.get('vectors'))
+    return make_cphd(pc['seed'], tmpdir, pc.get('consistent', True), pc.get('text_len'), pc.get('support_override'), pc.get('vectors'), pc.get('permute', False))
 
 
 SICD_FAMILIES = ['full-pfa', 'full-rma', 'chip-pfa-novd', 'chip-pfa', 'chip-rma']
@@ -619,6 +716,78 @@ def run_cphd_checker(path, signal=True):
     return out
 
 
+def canon_cphd_store(allr):
+    return {k: (bool(r['passed']), tuple((d['severity'], bool(d['passed'])) for d in r['details'])) for k, r in allr.items()}
+
+
+CPHD_HISTORY_STEPS = ['check', 'truncate', 'check', 'restore', 'fxc', 'check:ignore', 'check', 'fxc-restore', 'check:prefix', 'check']
+
+
+def apply_cphd_step(step, cc, path, buf, state):
+    """one change of the checked object: the file on disk (re-read by the file-level checks on every run) or the XML the checker holds"""
+    if step == 'truncate':
+        k = min(64, int(cphdgen.parse_header(buf)[2]['SIGNAL_BLOCK_SIZE']))
+        with open(path, 'wb') as f:
+            f.write(buf[:-k])
+        state['file'] = 'truncated'
+    elif step == 'restore':
+        with open(path, 'wb') as f:
+            f.write(buf)
+        state['file'] = 'whole'
+    elif step == 'fxc':
+        state['fxc'] = 1.01
+    elif step == 'fxc-restore':
+        state['fxc'] = 1.0
+
+
+def sync_xml(cc, state):
+    el = cc.xml.find('./Channel/Parameters/FxC')
+    if 'fxc0' not in state:
+        state['fxc0'] = float(el.text)
+    el.text = repr(state['fxc0'] * state.get('fxc', 1.0))
+
+
+def cphd_check_call(cc, step):
+    with warnings.catch_warnings():
+        warnings.simplefilter('ignore')
+        with numpy.errstate(all='ignore'):
+            if step == 'check:ignore':
+                cc.check(ignore_patterns=['check_channel_fx', 'check_refgeom'])
+            elif step == 'check:prefix':
+                cc.check(['check_pad', 'check_signal_at_end_of_file', 'check_channel_fxc'], allow_prefix=True)
+            else:
+                cc.check()
+
+
+def cphd_history(prod, steps, tmpdir):
+    """a CphdConsistency object driven through check / change / check …; after every check() call its results for the checks that
+    call selected are compared with those of a NEW checker built on the same file with the same XML edit.
+    -> list of (step index, check name, history result, fresh result) that differ"""
+    from sarpy.consistency.cphd_consistency import CphdConsistency
+    path = os.path.join(tmpdir, 'hist.cphd')
+    with open(path, 'wb') as f:
+        f.write(prod['buf'])
+    state = {}
+    cc = CphdConsistency.from_file(path, check_signal_data=True)
+    sync_xml(cc, state)
+    bad, calls = [], 0
+    for i, step in enumerate(steps):
+        if not step.startswith('check'):
+            apply_cphd_step(step, cc, path, prod['buf'], state)
+            sync_xml(cc, state)
+            continue
+        cphd_check_call(cc, step)
+        fresh = CphdConsistency.from_file(path, check_signal_data=True)
+        sync_xml(fresh, dict(state))
+        cphd_check_call(fresh, step)
+        calls += 1
+        a, b = canon_cphd_store(cc.all()), canon_cphd_store(fresh.all())
+        for name, val in b.items():
+            if a.get(name) != val:
+                bad.append((i, name, str(a.get(name))[:200], str(val)[:200]))
+    return bad, calls
+
+
 def detail_passed(allr, check, text):
     """the recorded result of one need/want of one check (None when it was not evaluated)"""
     r = allr.get(check)
@@ -790,6 +959,16 @@ def m_dup_second(path):
     return edit
 
 
+def last_in_block(root, q):
+    """the /Data/Channel entry whose signal array ends the SIGNAL block (the entries may be listed in any order)"""
+    return max(root.findall(q('Data/Channel')), key=lambda c: int(c.find(q('SignalArrayByteOffset')).text))
+
+
+def m_swap_param_ids(root, q):
+    els = root.findall(q('Channel/Parameters/Identifier'))
+    els[0].text, els[1].text = els[1].text, els[0].text
+
+
 def m_poly_exponent(root, q):
     p = root.find(q('Dwell/CODTime/CODTimePoly'))
     c = p.findall(q('Coef'))[-1]
@@ -852,10 +1031,10 @@ CPHD_MUTATIONS = [
          variants=CPHD_REQUIRED, apply=lambda p, r, v: cphd_xml_mut(p['buf'], remove_elem(v))),
     dict(name='cphd_numvectors_plus1', rule='channel signal array (NumVectors x NumSamples) fits the SIGNAL block', expect=['check_channel_signal_data'],
          lean='mutation_numvectors_falsifies_signalFits',
-         apply=lambda p, r: cphd_xml_mut(p['buf'], lambda root, q: set_text('NumVectors', _bump_text)(root.findall(q('Data/Channel'))[-1], q))),
+         apply=lambda p, r: cphd_xml_mut(p['buf'], lambda root, q: set_text('NumVectors', _bump_text)(last_in_block(root, q), q))),
     dict(name='cphd_numsamples_plus1', rule='channel signal array (NumVectors x NumSamples) fits the SIGNAL block', expect=['check_channel_signal_data'],
          lean='mutation_numvectors_falsifies_signalFits',
-         apply=lambda p, r: cphd_xml_mut(p['buf'], lambda root, q: set_text('NumSamples', _bump_text)(root.findall(q('Data/Channel'))[-1], q))),
+         apply=lambda p, r: cphd_xml_mut(p['buf'], lambda root, q: set_text('NumSamples', _bump_text)(last_in_block(root, q), q))),
     dict(name='cphd_pvp_offset_field_overlap', rule='PVP parameters do not overlap (FX1 declared at the offset of FX2); no dedicated rule, detected through FxC / FxBW',
          expect=['check_channel_fxc', 'check_channel_fxbw'], apply=m_pvp_overlap),
     dict(name='cphd_signal_nan', rule='signal samples are finite', expect=['check_channel_signal_data'], applies=lambda p: p['case']['fmt'] == 'CF8', apply=m_signal_nan),
@@ -884,6 +1063,10 @@ CPHD_MUTATIONS = [
          lean='mutation_corner_falsifies_fourCorners', apply=lambda p, r: cphd_xml_mut(p['buf'], m_remove_corner)),
     dict(name='cphd_image_area_swapped', rule='SceneCoordinates/ImageArea X1Y1 < X2Y2', expect=['check_imagearea_x1y1_x2y2'],
          lean='mutation_swap_falsifies_boxOrdered', apply=lambda p, r: cphd_xml_mut(p['buf'], m_swap_area)),
+    dict(name='cphd_channel_params_ids_swapped', rule='each channel is described by the /Channel/Parameters node with its own Identifier (two nodes carry each other\'s Identifier)',
+         expect=['check_channel_fxc', 'check_channel_fxbw'], lean='mutation_identifiers_swapped',
+         applies=lambda p: len(p['case']['sizes']) >= 2 and not p['meta'].Channel.FXFixedCPHD,
+         apply=lambda p, r: cphd_xml_mut(p['buf'], m_swap_param_ids)),
     dict(name='cphd_pad_nonzero', rule='pad between header and XML is zero (documented as a warning)', expect=['check_pad_header_xml'], level='Warning', apply=m_pad_nonzero),
 ]
 
@@ -1176,16 +1359,24 @@ def run(tier):
     sarpy_guard()
     chk = Check('C18', tier)
     rng = chk.rng
+    import time as _time
+    _t, stage = [_time.time()], {}
+
+    def mark(name):         # wall time per stage, reported in the evidence
+        stage[name] = round(_time.time() - _t[0], 1)
+        _t[0] = _time.time()
     gen_info = c18rules.regen()         # Gen/CheckerRules.lean from the current checker sources
     broken = chk.prove(['SarpyModel.Props.C18', 'SarpyModel.Drivers'], 'SarpyModel.Props.C18', 'Sarpy.Props.C18', REQUIRED, gen_info)
     b2, broken_rules = c18rules.prove(chk, gen_info)
     broken += b2
+    mark('prove')
     quick = tier == 'quick'
     drv = Driver()                      # reference models (Spec only)
     gen_drv = Driver()                  # regenerated rules (Gen): kept apart so that a rule that no longer translates costs only this driver
     book = c18rules.RuleBook(drv, gen_drv)
     fails, disagreements, seen, stats = [], [], set(), {}
     bump = lambda k, n=1: stats.__setitem__(k, stats.get(k, 0) + n)
+    stats['stage_seconds'] = stage
     samples = []
     logging.disable(logging.CRITICAL)
 
@@ -1215,12 +1406,54 @@ def run(tier):
     if runner_jobs:
         samples.append('checker run ' + spec_of(runner_jobs[0][0]))
 
+    mark('runner')
+    # ---- A2: histories of check() calls on one toy checker object, interleaved with changes of the checked state
+    hist_jobs = []
+    for _ in range(120 if quick else 2500):
+        nck, nv = rng.randint(1, 5), rng.randint(2, 3)
+        versions = [[rand_ops(rng) for _ in range(nck)] for _ in range(nv)]
+        events = rand_history(rng, nck, nv)
+        case = {'versions': versions, 'events': events}
+        try:
+            stores, fresh, src = run_toy_history(versions, events, random.Random(0))
+        except Exception as e:
+            fails.append({'kind': 'history', 'key': 'crash:runner-history', 'msg': f'a history of check() calls raised {type(e).__name__}: {e}', 'case': case})
+            continue
+        bump('toy_histories')
+        bump('toy_history_calls', len(stores))
+        seen.add(('history', len([e for e in events if e[0] == 'c']), any('~' in e for e in events), any(e.startswith('ce') for e in events), any(e.startswith('cp') for e in events)))
+        for k, (a, b) in enumerate(zip(stores, fresh)):
+            if (a == 'refused') != (b == 'refused') or (a != 'refused' and any(a.get(nm) != val for nm, val in b.items())):
+                fails.append({'kind': 'history', 'key': 'history:runner-call-depends-on-earlier-calls',
+                              'msg': f'check() call {k} of the history {"/".join(events)} on one checker object recorded {a}, a new checker on the same state with the same call records {b}',
+                              'case': dict(case, call=k, source=src)})
+                break
+        hist_jobs.append((case, stores, drv.ask('chkspec hist ' + '/'.join(spec_of(v) for v in versions) + ' ' + '/'.join(events))))
+
+    mark('toy_histories')
     # ---- B/C/D: products and mutants
     tmpdir = tempfile.mkdtemp(prefix='c18_', dir=os.environ.get('VERIF_SCRATCH', '/var/tmp'))
     rule_jobs = []      # (what, ask index, payload)
     mut_stats = {}
 
-    def model_jobs(kind, buf, r, tag):
+    def model_jobs(kind, buf, r, tag, truth=None):
+        if kind == 'cphd' and truth and not r['crash']:
+            # association of the /Data/Channel entries with the /Channel/Parameters nodes (by Identifier), observed through the FxC rule
+            try:
+                ca = c18rules.channel_assoc(cphd_parts(buf)['xml'], truth)
+            except Exception:
+                ca = None
+            if ca:
+                line, want, ids = ca
+                got = [detail_passed(r['all'], 'check_channel_fxc_' + re.sub(r'\W', '_', cid), 'FxC is (max(fx2) + min(fx1)) / 2') for cid in ids]
+                bump('channel_association_checks', len(ids))
+                for cid, w, g in zip(ids, want, got):
+                    if w is not None and g is not None and w != g:
+                        fails.append({'kind': 'rule', 'key': 'rule:channel_association:' + ('rejects-valid' if w else 'accepts-invalid'),
+                                      'msg': f'channel {cid}: the /Channel/Parameters node with Identifier {cid} carries {"its own" if w else "another channel\'s"} FxC, '
+                                             f'but check_channel_fxc_{cid} recorded passed={g} (Data order {ids})', 'case': {'input': 'cphd-file', 'case': tag, 'recorded_in': 'check_channel_fxc_' + cid,
+                                                                                                                   'rule': 'channel_association'}})
+                rule_jobs.append(('perchan', drv.ask(line), (tag, want)))
         if kind == 'cphd':
             line = cphd_model_line(buf)
             if line and not r['crash']:
@@ -1286,6 +1519,11 @@ def run(tier):
             bump('nitf_size_rule_' + ('holds' if nl['size_oracle'] else 'violated'))
             rule_jobs.append(('sizerule', drv.ask(nl['size_line']), (tag, nl['size_oracle'], nl['size_line'])))
 
+    def fxc_truth(prod):
+        if not prod['case'].get('consistent', True) or 'meta' not in prod:
+            return None
+        return {p.Identifier: p.FxC for p in prod['meta'].Channel.Parameters}
+
     def do_product(kind, prod, family):
         ext = 'cphd' if kind == 'cphd' else 'nitf'
         path = os.path.join(tmpdir, 'prod.' + ext)
@@ -1306,7 +1544,7 @@ def run(tier):
                 bump('cphd_products_with_warnings', 1 if r['warnings'] else 0)
                 for w in r['warnings']:
                     stats.setdefault('cphd_warning_checks', set()).add(w)
-        model_jobs(kind, prod['buf'], r, prod['case'])
+        model_jobs(kind, prod['buf'], r, prod['case'], fxc_truth(prod) if kind == 'cphd' else None)
         return r
 
     def do_mutations(catalogue, prod, nitf_kind=None):
@@ -1335,14 +1573,34 @@ def run(tier):
             elif outcome == 'unflagged':
                 fails.append({'kind': 'mutation', 'key': f'unflagged:{full}', 'msg': f'mutation {full} is not flagged (rule: {m["rule"]}); {json.dumps(info)[:300]}', 'case': case})
             if extra is not None and not m.get('xml_file'):
-                model_jobs(m.get('kind', 'cphd'), extra[0], extra[1], case)
+                model_jobs(m.get('kind', 'cphd'), extra[0], extra[1], case,
+                           fxc_truth(prod) if m['name'] in ('cphd_channel_params_ids_swapped', 'cphd_fxc_wrong') else None)
 
     try:
         n = 12 if quick else 120
         for _ in range(n):
-            prod = make_cphd(rng.getrandbits(40), tmpdir)
-            do_product('cphd', prod, 'cphd')
-            do_mutations(CPHD_MUTATIONS, prod)
+            # every third product: 2-3 channels differing in every checked parameter, /Data/Channel and /Channel/Parameters in different orders
+            prod = make_cphd(rng.getrandbits(40), tmpdir, permute=(_ % 3 == 1))
+            do_product('cphd', prod, 'cphd-permuted' if _ % 3 == 1 else 'cphd')
+            if not quick or _ < 8:          # quick tier: the whole catalogue on 8 of the 12 products (3 of them permuted)
+                do_mutations(CPHD_MUTATIONS, prod)
+            if _ < (2 if quick else 12):
+                # a history of check() calls on ONE checker object, interleaved with changes of the file and of the XML it holds
+                steps = CPHD_HISTORY_STEPS if _ % 2 == 0 else [s_ for s_ in CPHD_HISTORY_STEPS if rng.random() < 0.8 or s_ == 'check']
+                try:
+                    bad, calls = cphd_history(prod, steps, tmpdir)
+                except Exception as e:
+                    bad, calls = None, 0
+                    fails.append({'kind': 'history', 'key': 'crash:cphd-history', 'msg': f'a history of check() calls on one CphdConsistency object raised {type(e).__name__}: {e}',
+                                  'case': {'product': prod['case'], 'steps': steps}})
+                bump('cphd_histories')
+                bump('cphd_history_calls', calls)
+                seen.add(('cphd-history', tuple(steps)))
+                if bad:
+                    i, name, a, b = bad[0]
+                    fails.append({'kind': 'history', 'key': 'history:cphd-call-depends-on-earlier-calls',
+                                  'msg': f'CphdConsistency: after the steps {steps[:i + 1]} on one checker object, {name} holds {a}; a new checker on the same file and XML records {b} '
+                                         f'({len(bad)} entries differ)', 'case': {'product': prod['case'], 'steps': steps, 'differing': bad[:10]}})
             if _ < 2:
                 # probe (reported, never a failure): the file cut inside the PVP block - the constructor of the checker reads the PVP arrays
                 # before any rule runs (same root cause as the listed finding crash:cphd_numvectors_plus1)
@@ -1354,6 +1612,7 @@ def run(tier):
                 key = 'crash' if rr['crash'] else ('flagged' if rr['errors'] else 'unflagged')
                 stats.setdefault('probes', {}).setdefault('cphd_truncated_into_pvp', {}).setdefault(key, 0)
                 stats['probes']['cphd_truncated_into_pvp'][key] += 1
+        mark('cphd_products_mutants_histories')
         # structural rules on products whose PVP content is arbitrary (content rules do not apply)
         for _ in range(10 if quick else 100):
             prod = make_cphd(rng.getrandbits(40), tmpdir, consistent=False)
@@ -1370,6 +1629,7 @@ def run(tier):
                 if bad:
                     fails.append({'kind': 'product', 'key': 'reject:cphd-structural', 'msg': f'cphd checker flags a structural rule on a file sarpy wrote: {json.dumps(bad)[:400]}', 'case': prod['case']})
                 model_jobs('cphd', prod['buf'], r, prod['case'])
+        mark('cphd_structural')
         # ---- (a) the end of the XML block on every residue mod 64: one template per sweep, 64 consecutive lengths of the free text
         def sweep(with_support, label):
             sseed, base = rng.getrandbits(40), rng.randint(0, 30)
@@ -1380,7 +1640,22 @@ def run(tier):
                 pad = -(int(kv['XML_BLOCK_BYTE_OFFSET']) + int(kv['XML_BLOCK_SIZE']) + 2) % 64
                 pads.add(pad)
                 prod['case']['pad_after_xml'] = pad
-                do_product('cphd', prod, 'cphd-sweep')
+                if with_support or not quick or pad in (0, 1, 63) or k % 4 == 0:
+                    do_product('cphd', prod, 'cphd-sweep')
+                    continue
+                # quick tier, second sweep: the header / structure checks only on three files out of four (the content rules do not see the pad)
+                path = os.path.join(tmpdir, 'prod.cphd')
+                with open(path, 'wb') as f:
+                    f.write(prod['buf'])
+                allr, crash = c18rules.run_selected(path, c18rules.HEADER_CHECKS + c18rules.XML_CHECKS)
+                bump('products_cphd_header_only')
+                bad = sorted(k2 for k2, v in allr.items() if any(d['severity'] == 'Error' and not d['passed'] for d in v['details']))
+                if crash or bad:
+                    fails.append({'kind': 'product', 'key': 'reject:cphd-sweep', 'msg': f'cphd checker rejects a product sarpy wrote from valid metadata (cphd-sweep, pad {pad}): {crash or bad}',
+                                  'case': prod['case']})
+                else:
+                    obs, lobs = c18rules.cphd_file_observations(prod['buf'])
+                    book.add(obs, lobs, allr, {'input': 'cphd-file', 'case': prod['case']})
             seen.add(('sweep', with_support, len(pads)))
             stats[f'sweep_{label}_pads'] = len(pads)
             bump('sweep_files', 64)
@@ -1388,6 +1663,7 @@ def run(tier):
             sweep(True, 'support')
             sweep(False, 'nosupport')
 
+        mark('sweeps')
         # ---- (b) header patches at the boundary of every block-order rule (just holds / just fails), on real products
         def boundary(prod):
             for rule, patch in c18rules.boundary_patches(prod['buf']):
@@ -1430,7 +1706,7 @@ def run(tier):
                 obs, lobs, _ = c18rules.xml_observations(xml)
                 book.add(obs, lobs, allr, case)
                 seen.add(('xml', template, tuple(sorted(set(e.split(':')[0] for e in done)))))
-        xml_cases(150 if quick else 3000)
+        xml_cases(110 if quick else 3000)
         # the want "XML appears early" cannot be reached with a real file (XML offset 2^28): header dictionaries given to the constructor
         from lxml import etree
         from sarpy.consistency.cphd_consistency import CphdConsistency
@@ -1440,6 +1716,7 @@ def run(tier):
             book.add([dict(rule='xml_early', ints=[v], bools=[], check='check_pad_header_xml', text='XML appears early in the file')], [], cc.all(),
                      {'input': 'header-dict', 'header': {'XML_BLOCK_BYTE_OFFSET': v}})
 
+        mark('boundary_and_xml_cases')
         # ---- search: an obligation broke or a rule-level comparison failed -> widen around it
         if broken_rules or book.fails:
             implicated = broken_rules | {f['key'].split(':')[1] for f in book.fails}
@@ -1495,6 +1772,7 @@ def run(tier):
                         if 'apply' in pr:
                             rr.setdefault('errors', [])
                             nitf_rule_jobs('sicd', b, rr, {'probe': pr['name'], 'product': prod['case']})
+        mark('sicd_products')
         # ---- SICD documents with every subset of the optional parts the validation rules branch on (a crash is a violation)
         def sicd_document(base, radiometric, noise, drops):
             meta, done = sicd_variant(base, radiometric, noise, drops)
@@ -1518,10 +1796,11 @@ def run(tier):
                 sicd_document(base, [n for j, n in enumerate(RADIOMETRIC_POLYS) if k >> j & 1], k % 2 == 0, ())
             for path in SICD_OPTIONAL:      # every optional part removed alone
                 sicd_document(base, None, True, [path])
-        for _ in range(30 if quick else 600):
+        for _ in range(20 if quick else 600):
             sub = [n for n in RADIOMETRIC_POLYS if rng.random() < 0.5]
             sicd_document(rng.choice(['pfa', 'rma']), sub or None, rng.random() < 0.5, rng.sample(SICD_OPTIONAL, rng.randint(1, 6)))
 
+        mark('sicd_documents')
         nsidd, msidd = (8, 4) if quick else (80, 40)
         done = 0
         for i in range(nsidd):
@@ -1534,6 +1813,7 @@ def run(tier):
         shutil.rmtree(tmpdir, ignore_errors=True)
         logging.disable(logging.NOTSET)
 
+    mark('sidd_products')
     # ---- correspondence with the model
     ncorr = 0
     try:
@@ -1550,6 +1830,13 @@ def run(tier):
     fails += book.fails
     disagreements += book.disagreements
     if ans is not None:
+        for case, stores, i in hist_jobs:
+            ncorr += 1
+            got = []
+            for part in ans[i].split('|'):
+                got.append('refused' if part == 'refused' else ({} if part == '-' else dict(e.split('=') for e in part.split(';'))))
+            if got != stores:
+                disagreements.append({'msg': f'history of check() calls {"/".join(case["events"])}: model {ans[i][:200]} vs implementation {stores}', 'case': case})
         for checks, real, counts, i in runner_jobs:
             ncorr += 1
             t = ans[i].split(' ')
@@ -1583,6 +1870,11 @@ def run(tier):
                 for j, w, l in zip(i, orc, lines):
                     if (ans[j] == '1') != w:
                         disagreements.append({'msg': f'image-segment rule: reference gives {ans[j]} for `{l}`, the documented rule gives {w}', 'case': tag})
+            elif what == 'perchan':
+                tag, want = payload
+                got = [None if x == 'N' else x == '1' for x in (t[0].split(',') if t and t[0] != '-' else [])]
+                if got != want:
+                    disagreements.append({'msg': f'channel association: reference gives {t}, lookup by Identifier gives {want}', 'case': tag})
             elif what == 'desscan':
                 tag, kinds, w = payload
                 idx = [j for j, k in enumerate(kinds) if k in ('sicd', 'oldsicd')]
@@ -1596,6 +1888,7 @@ def run(tier):
                 if t[2] != '0':
                     disagreements.append({'msg': f'FL rule not falsified on {payload[0]}: {ans[i]}', 'case': payload[0]})
 
+    mark('drivers_and_comparison')
     catalogue = [m['name'] for m in CPHD_MUTATIONS + NITF_MUTATIONS]
     never = [n_ for n_ in catalogue if not any(k in st for name, st in mut_stats.items() if name.split(':')[0] == n_ for k in ('flagged', 'unflagged', 'crash'))]
     if never:
@@ -1709,6 +2002,21 @@ def replay(path):
     tmpdir = tempfile.mkdtemp(prefix='c18r_', dir=os.environ.get('VERIF_SCRATCH', '/var/tmp'))
     logging.disable(logging.CRITICAL)
     try:
+        if f['kind'] == 'history' and 'versions' in case:
+            stores, fresh, src = run_toy_history(case['versions'], case['events'], random.Random(0))
+            print(src)
+            print('events:', case['events'])
+            for k, (a, b) in enumerate(zip(stores, fresh)):
+                print(f'call {k}: one object through the history: {a}\n        new checker, same state, same call: {b}')
+            return 1
+        if f['kind'] == 'history':
+            prod = remake_cphd(case['product'], tmpdir)
+            bad, calls = cphd_history(prod, case['steps'], tmpdir)
+            print('steps:', case['steps'])
+            print('entries that differ from a new checker on the same state (step, check, history object, new checker):')
+            for row in bad[:20]:
+                print('  ', row)
+            return 1
         if f['kind'] == 'runner':
             real, counts, src = canon_real(case['checks'], random.Random(0))
             print(src)
